@@ -189,7 +189,7 @@ func genLookAlike(t *rapid.T) tailCase {
 	// operands are chosen so that "jumped" and "called" give different values at every depth
 	rec := NCall(NVar("tf"), NPrim("-", NVar("n"), NInt(1)), NPrim("+", NVar("acc"), NInt(3)))
 	var step *Node
-	kind := rapid.SampledFrom([]string{"let-binding", "letseq-binding", "argument", "array-literal", "assert", "cond-predicate", "and-first-arm", "and-middle-arm", "and-arm-inside-let", "non-final-in-begin", "def-value", "for-body"}).Draw(t, "look")
+	kind := rapid.SampledFrom([]string{"let-binding", "letseq-binding", "argument", "array-literal", "assert", "cond-predicate", "and-first-arm", "and-middle-arm", "and-arm-inside-let", "non-final-in-begin", "def-value", "for-body", "name-rebound-by-let", "name-rebound-by-parameter"}).Draw(t, "look")
 	switch kind {
 	case "let-binding":
 		step = &Node{K: "let", Names: []string{"r"}, Kids: []*Node{rec, NPrim("+", NVar("r"), NPrim("*", NVar("n"), NInt(100)))}}
@@ -215,6 +215,14 @@ func genLookAlike(t *rapid.T) tailCase {
 		step = N("begin", rec, NPrim("*", NVar("n"), NInt(100)))
 	case "def-value":
 		step = N("begin", NDef("dv", rec), NPrim("+", NVar("dv"), NPrim("*", NVar("n"), NInt(100))))
+	case "name-rebound-by-let":
+		// the callee name denotes a local function here: an ordinary call of it, never a jump to the top of tf
+		lam := &Node{K: "fn", Names: []string{"a", "b"}, Kids: []*Node{NPrim("+", NVar("a"), NPrim("*", NVar("b"), NInt(1000)))}}
+		step = &Node{K: rapid.SampledFrom([]string{"let", "letseq"}).Draw(t, "lk"), Names: []string{"tf"}, Kids: []*Node{lam, rec}}
+	case "name-rebound-by-parameter":
+		lam := &Node{K: "fn", Names: []string{"a", "b"}, Kids: []*Node{NPrim("+", NVar("a"), NPrim("*", NVar("b"), NInt(1000)))}}
+		inner := &Node{K: "defn", S: "inr", Names: []string{"inr", "k"}, Kids: []*Node{NCall(NVar("inr"), NVar("k"), NPrim("+", NVar("acc"), NInt(3)))}}
+		step = N("begin", inner, NCall(NVar("inr"), lam, NVar("n")))
 	case "for-body":
 		step = N("begin", NDef("fb", NInt(0)), &Node{K: "for", Kids: []*Node{NDef("i", NInt(0)), NPrim("<", NVar("i"), NInt(1)), NDef("i", NPrim("+", NVar("i"), NInt(1))), NSet("fb", rec)}}, NVar("fb"))
 	}
